@@ -38,6 +38,40 @@ Theorem C01_no_silent_truncation_partial : forall c gt gm pg sym idx out pg',
        end.
 Proof. exact page_render_shape. Qed.
 
+(* the combined statement, on a page with one symbol sink under the C02 guards (see
+   C02_offered_page_renders_page_partial): the n pages are a partition of the sink rows into
+   contiguous blocks, and page i is EXACTLY  xa ++ (the whole rows of block i, LF-joined) ++ xb ++
+   ["\n" ++ all ordinary menu lines ++ the browse lines of page i],  where xa / xb are the template
+   text before / after the sink instantiated with the FULL mapped values — nothing is cut. *)
+Theorem C01_page_content_exact_partial : forall c gt gm pg sym z0 m k v src a b s pg3,
+  p_sizer pg = Some z0 -> z_crsrs z0 = [] -> z_sink z0 = k -> 0 < z_out z0 -> z_out z0 < 4294967296 ->
+  p_menu pg = Some m -> m_sink m = false -> m_keep m = true -> m_page_count m = 0 ->
+  b_next_avail (m_browse m) = true -> b_prev_avail (m_browse m) = true ->
+  m_sep m = default_sep ->
+  title_for gm m (b_next_title (m_browse m)) = Ok (b_next_title (m_browse m)) ->
+  title_for gm m (b_prev_title (m_browse m)) = Ok (b_prev_title (m_browse m)) ->
+  k <> [] -> single_sink c k (p_map pg) -> alookup k (p_map pg) = Some v ->
+  (forall x, is_panic (gt x) = false) ->
+  gt sym = Ok src -> tpl_parse (tpl_source (p_err pg) (p_extra pg) src) = Some (a ++ TVar k :: b) ->
+  tmentions k a = false -> tmentions k b = false ->
+  page_render_inner gt gm (page_set_sizer pg (Some (sizer_add_cursor z0 0))) sym (blank k (p_map pg)) 0 = (Ok s, pg3) ->
+  len s < 4294967296 ->
+  rows_ok (split_on nl v) = true -> rows_size (split_on nl v) < 4294967296 -> len (split_on nl v) < 65536 ->
+  budget_ok (split_on nl v) (z_out z0 - len s) (browse_sizes (m_browse m)) = true ->
+  exists n r cs (pages : list (list bytes)) xa xb lines,
+    join_sink (split_on nl v) (z_out z0 - len s) (browse_sizes (m_browse m)) [0] = (Ok (r, n), cs)
+    /\ List.concat pages = split_on nl v /\ len pages = n /\ 0 < n
+    /\ (forall w, (forall nm, nm <> k -> alookup nm w = alookup nm (p_map pg)) ->
+          tpl_exec a w = Ok xa /\ tpl_exec b w = Ok xb)
+    /\ menu_lines (title_for gm m) (m_sep m) (m_items m) = Some lines
+    /\ (forall i p, nth_error pages i = Some p ->
+          exists pg', page_render c gt gm pg sym (N.of_nat i)
+            = (Ok ((xa ++ join_with [nl] p ++ xb)
+                   ++ opt_menu (join_with [nl] (lines ++ browse_lines (m_browse m) default_sep
+                                                           (N.of_nat i + 1 <? n) (0 <? N.of_nat i)))), pg'))
+    /\ (forall i, n <= i -> exists e, fst (page_render c gt gm pg sym i) = Err e).
+Proof. exact page_render_exact. Qed.
+
 (* non-vacuity: the K-C02-budget page at size 13 renders page 0 in 11 bytes, and at size 7 the
    same page (8 bytes of template and rows) is refused rather than cut *)
 Example C01page_nonvacuous :
@@ -49,3 +83,4 @@ Proof. vm_compute. auto. Qed.
 
 Print Assumptions C01_render_fits.
 Print Assumptions C01_no_silent_truncation_partial.
+Print Assumptions C01_page_content_exact_partial.
